@@ -1,4 +1,5 @@
 import DVP.Lemmas.Loop
+import DVP.Lemmas.Consts
 import DVP.Lemmas.LoopEv
 import DVP.Lemmas.Run
 /-!
@@ -136,5 +137,12 @@ example : (DV.Run.calls (α := ℚ) (V := ℚ) { eps := 1/2^50, tolEps := 1/2^47
       (fun _ y h => y * h) 10 (DV.Run.construct (1/2) (-1/4) (3/10) 1) [0, -1/4]).sys.ts = [-1/4, -1/8, 0, 1/5, 1/2] := by decide +kernel
 example : (DV.Run.calls (α := ℚ) (V := ℚ) { eps := 1/2^50, tolEps := 1/2^47, half := 1/2 } (· + ·)
       (fun _ y h => y * h) 10 (DV.Run.construct (1/2) (-1/4) (3/10) 1) [0, -1/4]).ys = [343/800, 49/100, 14/25, 7/10, 1] := by decide +kernel
+
+/-- the constants of the loop model are the ones in the source text (regenerated `DV.Gen.Consts`): buffer cap, halving, `epsilon`,
+`tol_epsilon` -/
+theorem loop_constants_are_the_sources :
+    (DV.Loop.allocSteps (((DV.Gen.Consts.allocCap + 1000 : Nat) : Rat)) 1 = some DV.Gen.Consts.allocCap ∧ DV.Gen.Consts.allocCap = 5000) ∧
+    (DV.Gen.Consts.halving = 1/2 ∧ DV.Gen.Consts.epsilonFactor = 4 ∧ DV.Gen.Consts.tolEpsilonFactor = 32) :=
+  ⟨DVP.Consts.alloc_cap, DVP.Consts.loop_literals⟩
 
 end DVP.C03
